@@ -841,6 +841,73 @@ def twin_update(args):
         shutil.rmtree(root, ignore_errors=True)
 
 
+def self_above(args):
+    """Directed family for C03 / C12: a sub-Manifest ABOVE the directory being updated holds an entry for
+    itself (which can never be right) and is rewritten - and possibly renamed by the compression
+    watermark - only because the chain of MANIFEST entries above the updated directory is refreshed."""
+    seed, idx, o = args
+    rng = random.Random('selfabove-%d-%d' % (seed, idx))
+    root = tlc.scratch_dir('vsa')
+    try:
+        L = gen.Layout(rng)
+        mid = rng.choice(['a', 'da', 'x y'])
+        low = mid + '/' + rng.choice(['files', 'b'])
+        L.dirs = ['', mid, low]
+        comp = rng.choice(['plain', 'plain', 'gz', 'xz'])
+        mmf = mid + '/Manifest' + ('' if comp == 'plain' else '.' + comp)
+        L.mf['Manifest'] = []
+        L.mf[mmf] = []
+        hs = rng.choice(HASHSETS)
+        lmf = None
+        if rng.random() < 0.6:
+            lc = rng.choice(gen.COMPS)
+            lmf = low + '/Manifest' + ('' if lc == 'plain' else '.' + lc)
+            L.mf[lmf] = []
+        for d, mp in (('', 'Manifest'), (mid, mmf), (low, lmf or mmf)):
+            for n in rng.sample(['f1', 'f2', 'a b', 'zz'], rng.randrange(1, 4)):
+                p = (d + '/' if d else '') + n
+                L.files[p] = rng.choice([b'abc', b'abd', b'hello world', b''])
+                L.add_file_entry(mp, p, L.files[p], 'DATA', hs)
+        if lmf:
+            L.mf[mmf].append({'tag': 'MANIFEST', 'path': L.rel(lmf, mmf), 'size': 0, 'ck': {'SHA256': ''}, 'ref': lmf})
+        L.mf['Manifest'].append({'tag': 'MANIFEST', 'path': mmf, 'size': 0, 'ck': {'SHA256': ''}, 'ref': mmf})
+        # the entry of the middle Manifest for itself
+        b = os.path.basename(mmf)
+        L.mf[mmf].append(rng.choice([
+            {'tag': 'MANIFEST', 'path': b, 'size': 5, 'ck': {'MD5': '00' * 16}},
+            {'tag': 'MANIFEST', 'path': b, 'size': 0, 'ck': {}},
+            {'tag': 'DATA', 'path': b, 'size': 7, 'ck': {'SHA256': '11' * 32}},
+            {'tag': 'MISC', 'path': b, 'size': 0, 'ck': {}}]))
+        if rng.random() < 0.5:
+            rng.shuffle(L.mf[mmf])
+        L.write(root)
+        edits = []
+        cands = sorted(p for p in L.files if p.startswith(low + '/'))
+        for p in rng.sample(cands, rng.randrange(1, len(cands) + 1)):
+            fp = os.path.join(root, p)
+            if rng.random() < 0.4:
+                os.unlink(fp)
+                edits.append({'m': 'delete', 'p': p})
+            else:
+                with open(fp, 'ab') as f:
+                    f.write(b'+')
+                edits.append({'m': 'alter_size', 'p': p})
+        if rng.random() < 0.5:
+            with open(os.path.join(root, low, 'new file'), 'wb') as f:
+                f.write(b'new')
+            edits.append({'m': 'stray', 'p': low + '/new file'})
+        opts = {'hashes': hs if rng.random() < 0.7 else rng.choice(HASHSETS), 'sub': rng.choice([low, low, mid, '']),
+                'sort': rng.choice([None, True, False]), 'force': False,
+                'wm': rng.choice([None, 0, 60, 100000]), 'fmt': rng.choice(['gz', 'xz', 'bz2']), 'profile': 'default'}
+        if opts['wm'] is None:
+            opts['fmt'] = None
+        namer = fm.Namer()
+        return run_history(root, L, rng, namer, opts, {'seed': seed, 'idx': idx, 'self_above': mmf, 'edits': edits,
+                                                        'prior': [{'prior': 'sub_lists_itself', 'p': mmf}]})
+    finally:
+        shutil.rmtree(root, ignore_errors=True)
+
+
 # ---------------------------------------------------------------------------------------------
 # direction 1: behaviours exported by TLC from Update.tla, replayed into the real loader
 
